@@ -14,7 +14,7 @@ work="$VERIF_DIR/work/c20-$$"; mkdir -p "$work"
 ir() { # fam size mode
     timeout 300 valgrind --tool=cachegrind --cache-sim=no --cachegrind-out-file=/dev/null "$bin" work "$1" "$2" $3 2>&1 | sed -n 's/.*I *refs: *\([0-9,]*\).*/\1/p' | tr -d ','
 }
-nf=16; n=0
+nf=24; n=0
 for f in $(seq 0 $((nf-1))); do for s in $sizes; do
     ( ir $f $s "" > "$work/$f-$s.p"; ir $f $s skip > "$work/$f-$s.b" ) &
     n=$((n+1)); if (( n % 8 == 0 )); then wait; fi
